@@ -4,7 +4,7 @@ from __future__ import annotations
 from typing import Any, Dict, List
 
 from sim.gen_worker import gen_worker_script, tier_knobs
-from sim.worker_world import FRAMEWORK_LABELS, enc_labels
+from sim.worker_world import FRAMEWORK_LABELS, enc_labels, summarize_value
 from ._wcommon import (ASSUMPTIONS, COMPONENTS_REAL, COMPONENTS_STUB, Hist, Violation, default_nontrivial,  # noqa: F401
                        simplifications, simulate)
 
@@ -35,6 +35,7 @@ KNOBS = {
     "p_mw_replace": 0.0,
     "outcomes": {"ret": 5, "exc": 4, "baseexc": 3, "nores": 2, "requeue": 0, "reject": 1},
     "p_zero_timeout": 0.12,
+    "p_warn_error": 0.05,
     "label_msgs": True,
 }
 MARGIN_PER_STEP_US = 60_000
@@ -71,15 +72,23 @@ def gen(rs: int, tier: str, index: int) -> dict:
     if r.random() < 0.1 and s["messages"]:
         # the task name of template 0 is registered again half-way with a function of the other kind (sync <-> async)
         times = sorted(m["send_at_us"] for m in s["messages"])
-        s["ops"].append({"op": "reregister", "task": 0, "at_us": times[len(times) // 2]})
-        s["tasks"][0]["ctx"] = False
+        rt = 1 if len(s["tasks"]) > 1 and s["tasks"][1].get("sync") and r.random() < 0.6 else 0      # sync -> async or async -> sync
+        s["ops"].append({"op": "reregister", "task": rt, "at_us": times[len(times) // 2]})
+        s["tasks"][rt]["ctx"] = False
         for m in s["messages"]:
-            if m.get("task") == 0:
+            if m.get("task") == rt:
                 m.pop("timeout", None)
                 m.pop("timeout_raw", None)
                 for a in m.get("attempts", []):
                     if a.get("out", ["ret"])[0] in ("requeue", "reject"):
                         a["out"] = ["ret"]
+    if s["config"].get("store", "object") == "object":
+        # the function RETURNS an exception object (sync and async tasks): a return value like any other, stored with is_err false
+        rx = stream(rs, "c07excval")
+        for m in s["messages"]:
+            for a in m.get("attempts", []):
+                if a.get("out", ["ret"]) == ["ret"] and rx.random() < 0.1:
+                    a["out"] = ["ret", "excval"]
     return s
 
 
@@ -187,6 +196,8 @@ def oracle(script: dict, run: Any) -> List[Violation]:
                 out.append(Violation("C07/error-with-value", f"delivery {d}: error result carries return value {s['value']!r}"))
         else:
             want = f"ret-{k}-{fe[5]['attempt']}-d{d}"
+            if len(outc) > 1 and outc[1] == "excval":
+                want = repr(ValueError(want))
             if not (s["is_err"] is False and s["err"] is None and s["value"] == want):
                 out.append(Violation("C07/wrong-value", f"delivery {d}: returned {want!r} but stored is_err={s['is_err']} err={s['err']} value={s['value']!r}"))
         # labels: the result carries the message's labels (as the worker parsed them)
@@ -218,7 +229,7 @@ def oracle(script: dict, run: Any) -> List[Violation]:
                 except Exception:
                     res = None
                 if res is not None:
-                    if res.is_err != s["is_err"] or (not s["is_err"] and res.return_value != s["value"]):
+                    if res.is_err != s["is_err"] or (not s["is_err"] and summarize_value(res.return_value) != s["value"]):
                         out.append(Violation("C07/stored-copy-differs", f"delivery {d}: decoded stored result is_err={res.is_err} value={res.return_value!r}"))
     # liveness after backend failures: the run settled
     if run.fault_counts.get("save_fail") and not h.kind("crash"):
